@@ -12,7 +12,7 @@ import warnings
 import torch
 
 from common import BUILD, Infra, Raw, sx, time_limit
-from c11_canon import canon, echo_canon, first_diff
+from c11_canon import canon, echo_canon, first_diff, lock_behaviour
 from c11_hist import DT_HIST as DT, mk_tensor
 
 
@@ -41,6 +41,11 @@ def tc_cls():
         _TC.__module__ = __name__
         _TC.__qualname__ = "C11Pair"
     return _TC
+
+
+# the class exists as soon as the module is imported: worker processes (forked before the first instance is built, or spawned and
+# importing this module afresh) can then unpickle instances of it
+tc_cls()
 
 
 def gen_td(rng, kind):
@@ -224,6 +229,43 @@ def trips(td, scratch, rng):
     return out
 
 
+def snapshot_trips(td):
+    """serialise, THEN write other values into the source in place, then deserialise: what comes back must be the tensordict as it was
+    at the moment of the call. Formats that copy by contract: pickle bytes, deepcopy, state_dict (keep_vars=False: `detach().clone()`,
+    flattened or not). name -> (serialise, deserialise)"""
+    from tensordict import TensorDict
+    out = {"pickle-bytes": (lambda: pickle.dumps(td), lambda b_: pickle.loads(b_))}
+    for flatten in (False, True):
+        def ser(flatten=flatten):
+            return td.state_dict(flatten=flatten)
+
+        def de(sd_, flatten=flatten):
+            dest = td.apply(lambda x: torch.zeros_like(x) if not x.is_nested else x, filter_empty=False)
+            if dest.is_locked:
+                dest = dest.unlock_()
+            dest.load_state_dict(sd_, from_flatten=flatten)
+            return dest
+        out[f"state_dict(flatten={flatten})"] = (ser, de)
+    return out
+
+
+def scramble_(td):
+    """write other values into every tensor leaf, in place; returns the function that restores them"""
+    saved = []
+    for v in td.values(True, True):
+        if isinstance(v, torch.Tensor) and not v.is_nested and v.numel():
+            saved.append((v, v.clone()))
+            if v.dtype == torch.bool:
+                v.logical_not_()
+            else:
+                v.add_(1)
+
+    def restore():
+        for v, old in saved:
+            v.copy_(old)
+    return restore
+
+
 def applicable(name, kind, td):
     """combinations the library does not define (documented restrictions), not counted either way"""
     if name == "struct_array":
@@ -284,6 +326,32 @@ def run_trips(run):
                     for method, pool in pools.items():
                         all_trips[f"pickle-to-{method}-process"] = ((lambda pool=pool: ("canon", pool.apply(echo_canon, (td, full)))), full)
                         all_trips[f"pickle-to-{method}-process(consolidated)"] = ((lambda pool=pool: ("canon", pool.apply(echo_canon, (td.consolidate(), full)))), full)
+                # the copy is taken at the moment of the call: later in-place writes into the source do not reach it
+                if kind not in ("lazy", "lazy12", "lazy-dim1", "lazy-nested", "tensorclass", "njt", "njt2", "noncontig"):
+                    for sname, (ser, de) in snapshot_trips(td).items():
+                        run.case(("snapshot-trip", it, kind, sname, lock))
+                        sopts = dict(lock=sname == "pickle-bytes", names=True, device=True)
+                        want = canon(td, **sopts)
+                        restore = None
+                        try:
+                            with time_limit(120):
+                                payload = ser()
+                                restore = scramble_(td)
+                                got_ = canon(de(payload), **sopts)
+                            sdiff = first_diff(want, got_)
+                        except TimeoutError as e:
+                            raise Infra(f"{sname} timed out: {e}")
+                        except Exception as e:  # noqa: BLE001
+                            sdiff = f"raised {type(e).__name__}: {str(e)[:150]}"
+                        finally:
+                            if restore is not None:
+                                restore()
+                        if sdiff is None:
+                            run.oracle_ok("serialised_at_the_moment_of_the_call")
+                        else:
+                            run.oracle_fail("serialised_at_the_moment_of_the_call", {"kind": kind, "format": sname, "locked": lock},
+                                            f"{sname}: the source was written in place after serialising; what is deserialised differs from the tensordict at the moment of the call: {sdiff}",
+                                            f"snapshot:{sname}:{kind}")
                 for name, (fn, opts) in all_trips.items():
                     if not applicable(name, kind, td):
                         continue
@@ -299,16 +367,26 @@ def run_trips(run):
                             got = res[1] if isinstance(res, tuple) and len(res) == 2 and res[0] == "canon" else canon(res, **opts)
                         diff = first_diff(ref_cache[key], got)
                     except TimeoutError as e:
-                        raise Infra(f"{name} timed out: {e}")
+                        raise Infra(f"{name} timed out on a {kind} tensordict (iteration {it}, locked={lock}): {e}")
                     except Exception as e:  # noqa: BLE001
                         diff = f"raised {type(e).__name__}: {str(e)[:150]}"
+                    if diff is None and opts.get("lock") and lock and not (isinstance(res, tuple) and len(res) == 2 and res[0] == "canon"):
+                        # "including lock state" = the copy *behaves* locked, not only reports it
+                        try:
+                            acc = lock_behaviour(res)
+                        except Exception as e:  # noqa: BLE001
+                            acc = [f"probe raised {type(e).__name__}: {str(e)[:80]}"]
+                        if acc:
+                            diff = "reports is_locked but accepts: " + ", ".join(acc)
                     if diff is None:
                         run.oracle_ok("roundtrip:" + name.split("(")[0])
                     else:
                         what = "other"
+                        if diff.startswith("reports is_locked but accepts"):
+                            what = "lock-behaviour"
                         if diff.startswith("raised"):
                             what = "raise-" + "".join(ch if ch.isalnum() else "-" for ch in diff[7:60])
-                        if opts.get("lock") and not diff.startswith("raised"):
+                        if opts.get("lock") and not diff.startswith("raised") and what != "lock-behaviour":
                             try:
                                 nolock = dict(opts, lock=False)
                                 res2 = fn()
